@@ -24,6 +24,11 @@ class Unsupported(HarnessError):
     pass
 
 
+class StreamExhausted(BaseException):
+    """the library reads from the terminal although every report the terminal sent has been consumed (a real
+    terminal would leave it blocked forever); BaseException so that no handler in the library swallows it"""
+
+
 class RefTerm:
     def __init__(self, h, w):
         self.h, self.w = h, w
@@ -403,7 +408,7 @@ class ScriptedIn:
             elif self.before:
                 self._cur, self.before = self.before, ""
         if not self._cur:
-            raise HarnessError("library read from in_stream although no cursor report is outstanding")
+            raise StreamExhausted("read from in_stream although no cursor report is outstanding")
         ch, self._cur = self._cur[0], self._cur[1:]
         self.consumed += ch
         return ch
